@@ -16,6 +16,9 @@ KNOWN_CLASSES = {
     "exec-panic:after-dup-qubits": "C18-dup-qubits-silently-simulated",     # a later operation trips over the garbage state
     "reps-diverge:after-dup-qubits": "C18-dup-qubits-silently-simulated",
     "latex-panic:dup-qubits": "C19-abort-export-latex-dup-qubits",
+    "exec-panic:qubit-out-of-range": "C18-qustate-qubit-out-of-range",
+    "reps-diverge:qubit-out-of-range": "C18-qustate-qubit-out-of-range",
+    "exec-panic:after:qubit-out-of-range": "C18-qustate-qubit-out-of-range",
     "exec-panic:non-finite-parameter": "C18-nonfinite-parameter-measure-all-panic",
     "exec-panic:cbit-ge-64": "C19-abort-exec-cbit-ge-64",
     "reps-diverge:cbit-ge-64": "C19-abort-exec-cbit-ge-64",
@@ -59,6 +62,10 @@ def eq(req, a, b):
     """(A): exact, floats to 1e-9.  One documented tolerance: on a gate placed on a REPEATED qubit the matrix-mode route
     model stops (`panic`) where the Rust assertion looks at the total element count of the 2-D state and, with an even
     number of ranges, goes on with garbage; the driver then answers `panic-or-garbage`."""
+    if b == "oob-unmodelled":
+        # QuState-level call on the stabilizer representation with a qubit index >= n that the method does not validate:
+        # the flat tableau array aliases the next row (any outcome); (B) still demands no panic and identical rejection
+        return True
     if b == "panic-or-garbage":
         return a == "panic" or a.startswith("ok | V ")
     return _hex_eq(req, a, b)
@@ -97,7 +104,7 @@ SPEC = {
             "failed call, whether every public query of the object (nr_qbits, nr_cbits, is_stabilizer_circuit, verif_nr_ops, the three exports) is unchanged; the final number of operations. Then open_qasm / c_qasm / latex (class), "
             "execute_with on QuStateRepr::vector and ::stabilizer, reexecute after each (also after an error inside a run), and execute_with(vector) once more on the same object, with 0/1/2/3/5 shots: every traced operation is re-run by "
             "the Lean model from the implementation's own pre-state with its logged draws (step lines), the failing operation too. "
-            "Fixed stream: each of rx ry rz u1 u2 u3 (every parameter position), add_gate RX, CRX, CRY and a conditional RY with a NaN, +inf and -inf parameter, followed by measure / peek / reset / measure_x / measure_basis Y / peek_basis X / measure_all / peek_all and a further measure, on both representations. Macro stream: 46 compiled circuit! invocations, one per builder method with a failing call in the middle (arguments count "
+            "Fixed stream: each of rx ry rz u1 u2 u3 (every parameter position), add_gate RX, CRX, CRY and a conditional RY with a NaN, +inf and -inf parameter, followed by measure / peek / reset / measure_x / measure_basis Y / peek_basis X / measure_all / peek_all and a further measure, on both representations. QuState stream: on VectorState and StabilizerState directly (0-3 qubits, 0-3 shots, after a short valid prelude) every public trait method that takes a gate or an operand list - apply_gate, apply_unary_gate_all, apply_conditional_gate, measure_into, peek_into, measure_all_into, peek_all_into, reset, reset_all - with gates of arity 0 (Composite::new(\"nop\", 0)), 1, 2, operand lists right / empty / short / long / repeated / descending / one past the register, control slices of the wrong length, classical bits 63 / 64, registers shorter and longer than the shot count; each call compared with the model from the implementation's own pre-state (qs lines), the two representations with each other (qpair), and the same object used once more afterwards. Macro stream: 46 compiled circuit! invocations, one per builder method with a failing call in the middle (arguments count "
             "their own evaluations), plus failing first/last calls and zero-width registers. (B): builders vs the reference reading "
             "(first out-of-range index), no PANIC anywhere, identical rejection by both representations, macro returns the first error; "
             "every failure carries the violated WellFormed conjunct as class tag. "
